@@ -21,6 +21,7 @@ type writersScenario struct {
 	name    string
 	snap    bool // a snapshot runs beside the writers (its recorder is a second sink)
 	keyed   bool
+	clone   bool // the logger records Commit.Clone() (what commit.Channel sends) instead of the codec round trip
 	threads [][]model.Act
 	fails   []bool
 }
@@ -71,7 +72,11 @@ func (ws writersScenario) instance(prop string) func() *eng.SchedInstance {
 			sw.w.Commits = nil
 			sw.applied = map[string][]applyEvent{}
 		} else {
-			sw = newSWorld(model.Config{Cols: cols}, []model.Write{{Col: "a", V: model.Val{N: 2}}, {Col: "b", V: model.Val{N: 0}}, {Col: "s", V: model.Val{S: "s"}}}, "a")
+			logger := ""
+			if ws.clone {
+				logger = "clone"
+			}
+			sw = newSWorld(model.Config{Cols: cols, Logger: logger}, []model.Write{{Col: "a", V: model.Val{N: 2}}, {Col: "b", V: model.Val{N: 0}}, {Col: "s", V: model.Val{S: "s"}}}, "a")
 			sw.w.C.CreateIndex("a>5", "a", func(r columnReader) bool { return r.Int() > 5 })
 			sw.w.M.Indexes = append(sw.w.M.Indexes, &model.IndexDef{Name: "a>5", Col: "a", Pred: func(v model.Val) bool { return int64(v.N) > 5 },
 				Rule: func(r columnReader) bool { return r.Int() > 5 }})
